@@ -79,7 +79,21 @@ def one_case(rng, tmpdir, tier, fails, stats, seen):
         data = sargen.pixel_array(rng, rows, cols, pt)
     nseg = 1 if not row_limit else -(-rows // row_limit)
     seen.add((pt, min(nseg, 4), rows > 2048 or cols > 2048))
-    meta.ImageCreation = None
+    # the creation block the caller supplies: absent, partial (no DateTime) or complete.  The writer stamps Profile (and DateTime when
+    # missing); everything else the caller supplied must come back
+    from sarpy.io.complex.sicd_elements.ImageCreation import ImageCreationType
+    icv = rng.choice(['absent', 'absent', 'app+site', 'site', 'complete'])
+    if icv == 'absent':
+        meta.ImageCreation = None
+    elif icv == 'app+site':
+        meta.ImageCreation = ImageCreationType(Application='harness 1.0', Site='site A')
+    elif icv == 'site':
+        meta.ImageCreation = ImageCreationType(Site='site B')
+    else:
+        meta.ImageCreation = ImageCreationType(Application='harness 2.0', Site='site C', DateTime=numpy.datetime64('2020-02-03T04:05:06'), Profile='old profile')
+    supplied = None if meta.ImageCreation is None else {k: getattr(meta.ImageCreation, k) for k in ('Application', 'Site', 'DateTime')}
+    case = dict(case, image_creation=icv)
+    seen.add(('image-creation', icv))
     # reference history: one whole write to a path
     logging.disable(logging.CRITICAL)
     try:
@@ -119,6 +133,13 @@ def one_case(rng, tmpdir, tier, fails, stats, seen):
             m = meta_diff(strip(a.to_dict()), strip(b.to_dict()))
             if m:
                 fails.append({'kind': 'metadata', 'msg': 'metadata differs after write/read: ' + m, 'case': case})
+            ic = rdr.sicd_meta.ImageCreation
+            if ic is None or ic.DateTime is None or ic.Profile is None:
+                fails.append({'kind': 'metadata', 'msg': f'ImageCreation after write/read is not stamped (Profile / DateTime): {None if ic is None else ic.to_dict()}', 'case': case})
+            elif supplied is not None:
+                for k_, v_ in supplied.items():
+                    if v_ is not None and getattr(ic, k_) != v_:
+                        fails.append({'kind': 'metadata', 'msg': f'ImageCreation.{k_} supplied as {v_!r} reads back as {getattr(ic, k_)!r} (the writer stamps Profile, and DateTime only when missing)', 'case': case})
         finally:
             rdr.close()
     except Exception as e:
